@@ -43,6 +43,10 @@ CHECKS = {
    technique="deterministic simulation of the goroutine schedule: go-car's mutexes and file types substituted by simulator types, all tasks parked at every lock / simulated I/O / client yield inside a testing/synctest bubble, a seeded PRNG picks who runs (replayable pick list); recorded history checked for linearizability with porcupine; separate race-detector pass for the memory-level clause",
    text="Seeded search over interleavings of 2-16 client tasks on one shared store: no panic, no deadlock, linearizable history against the map+typestate model, each acknowledged block exactly once in the finalized file. The 'no data races' clause is decided by the Go race detector on the same programs under the runtime's own schedules (monitoring, not simulation) because memory accesses cannot be intercepted at any seam.",
    note="lock model without writer preference; channel hand-offs of key listings are not scheduling points; race pass is sound but schedule-dependent; " + TRUST),
+ "C09": dict(engine="medium", cat="exploration", ref="4/C09",
+   technique="deterministic simulation with medium-fault injection (hostile length/offset/count fields, truncation, flips, extents, garbage, injected read errors) delivered through simulated sources to 19 parsing entry points; each case announced and run in a supervised child process; panic / process-death / non-termination / allocation-bound oracles; allocation site identified from the runtime's allocation profile",
+   text="No panic, no process death, termination within a source-call budget, and TotalAlloc within limits + 1024*len + 1 MiB for every generated case under small configured limits; exact-maximum acceptance and max+1 rejection on valid files. One allocation site in a dependency (go-cid CidFromReader) is a known finding.",
+   note="the constant of 'proportional to the input size' is chosen by the harness (1024/byte + 1 MiB); child processes run under ulimit -v 6 GiB; " + TRUST),
 }
 
 NA = {
